@@ -592,6 +592,9 @@ func genStdScenario(seed uint64, prop string, maxFork string) *Scenario {
 		g.self, g.nCreates = contractAddr(i), 0
 		a := Account{Addr: contractAddr(i), Balance: hxu(uint64(r.Intn(5000))), Nonce: 1, Code: g.genProgram(r, 2+r.Intn(14))}
 		g.self = ""
+		if r.P(1, 25) {
+			a.Nonce = ^uint64(0) // creator at the nonce limit
+		}
 		if r.Bool() {
 			a.Storage = map[string]string{}
 			for k := 0; k < r.Intn(4); k++ {
@@ -619,6 +622,35 @@ func genStdScenario(seed uint64, prop string, maxFork string) *Scenario {
 		if nc >= 3 {
 			mid := first + 1
 			sc.Accounts[mid].Code.M = append(append([]Macro{}, pre...), sc.Accounts[mid].Code.M...)
+		}
+		sc.Accounts[first].Code.M = append(pre, sc.Accounts[first].Code.M...)
+	}
+	if r.P(1, 8) {
+		// rolled-back write cluster: the first contract reads a slot, calls itself (empty calldata
+		// selects the branch that writes the slot and then fails, or - via STATICCALL - is not
+		// allowed to write at all), and reads the slot again
+		first := len(sc.Accounts) - nc
+		self := sc.Accounts[first].Addr
+		slot, val := genSlot(r), genVal(r)
+		fail := Macro{K: "term", Op: "INVALID"}
+		kinds := []string{"CALL", "CALLCODE"}
+		if forkAtLeast(sc.Fork, "Homestead") {
+			kinds = append(kinds, "DELEGATECALL")
+		}
+		if forkAtLeast(sc.Fork, "Byzantium") {
+			fail = pick(r, []Macro{{K: "term", Op: "REVERT", A: []string{"0x0", "0x0"}}, {K: "term", Op: "INVALID"}, {K: "term", Op: "STOP"}})
+			kinds = append(kinds, "STATICCALL")
+		}
+		kind := pick(r, kinds)
+		args := []string{"GAS", self, "0x0", "0x0", "0x0", "0x0", "0x0"}
+		if kind == "DELEGATECALL" || kind == "STATICCALL" {
+			args = []string{"GAS", self, "0x0", "0x0", "0x0", "0x0"}
+		}
+		pre := []Macro{
+			{K: "if", A: []string{"CD:0x0"}, Body: []Macro{{K: "op", Op: "SSTORE", A: []string{slot, val}}, fail}},
+			{K: "op", Op: "SLOAD", A: []string{slot}, Dst: 0x41},
+			{K: "call", Op: kind, A: args, Flag: "m:0x20"},
+			{K: "op", Op: "SLOAD", A: []string{slot}, Dst: 0x61},
 		}
 		sc.Accounts[first].Code.M = append(pre, sc.Accounts[first].Code.M...)
 	}
